@@ -65,8 +65,18 @@ def scenario_for(cfg):
             est.set_params(skip_errors=skip)
         else:
             est = m.CategoriesToIntegers(columns=list(COLS), remove=remove, skip_errors=skip, single=single)
+        if cfg.get("refit"):
+            # history: the object was fitted on another table (other categories) and used before
+            prev = {(0, "shape"): "zz", (0, "size"): 7, (1, "shape"): POOL["shape"][1], (1, "size"): POOL["size"][0]}
+            P = _frame(prev, 2, index=["p0", "p1"])
+            est.fit(P)
+            est.transform(P)
         r = est.fit(Xtr)
         C.true(r is est, "fit-returns-self")
+        if cfg.get("permute_cols"):
+            # the table to transform lists its columns in another order than the training table
+            Xte = Xte[["num", "size", "shape"]]
+            Xte0 = Xte.copy()
         cats = {c: sorted(set(v for (i, cc), v in train.items() if cc == c and not _missing(v))) for c in COLS}
         kept = {c: [v for v in cats[c] if not (remove and f"{c}={v}" in remove)] for c in COLS}
         removed_hit = any(not _missing(v) and v in cats[c] and v not in kept[c] for (i, c), v in test.items())
@@ -137,6 +147,9 @@ def configs(tier):
         out.append(dict(train_rows=2, test_rows=1 if tier == "quick" else 2, train_missing=False, single=single, skip_errors=True, remove=None, pool="falsy"))
         for skip in (False, True):
             out.append(dict(train_rows=2, test_rows=1, train_missing=False, single=single, skip_errors=skip, remove=None, via_set_params=True))
+    for single in (False, True):
+        for hist in ("refit", "permute_cols"):
+            out.append(dict(train_rows=2, test_rows=1, train_missing=False, single=single, skip_errors=True, remove=None, **{hist: True}))
     # spread over the cores: the first training row is enumerated here (programs), the rest by the engine
     full = []
     for c in out:
